@@ -118,7 +118,7 @@ def run(ctx):
     lines = common.corpus("C09", ("PO ", "HP ", "IN "))
     po = common.harness_gen(harness, ["po"])
     lines += po
-    nrand = 30000 if ctx.quick else 300000
+    nrand = 30000 if ctx.quick else 1500000
     seeds = [ctx.seed] if ctx.quick else [ctx.seed, ctx.seed + 1000, ctx.seed + 2000]
     for s in seeds:
         lines += common.harness_gen(harness, ["rand", s, nrand // len(seeds)])
